@@ -397,7 +397,11 @@ class DefaultOperatorResolver(OperatorResolver):
 
         def insert_unused_terms(context: Mapping[str, Any]) -> OrderedSet[Term]:
             available_variables: OrderedSet[str]
-            used_variables: set[str] = set(context["__formulaic_variables_used_lhs__"])
+            # Only `DefaultFormulaParser` records the variables used on the
+            # left-hand side; for other parsers none are considered used.
+            used_variables: set[str] = set(
+                context.get("__formulaic_variables_used_lhs__", ())
+            )
 
             # Populate `available_variables` or raise.
             if "__formulaic_variables_available__" in context:
